@@ -184,33 +184,52 @@ pub fn workload(rng: &mut Rng, tier: Tier) -> Workload {
     ];
     let plain_pool = [ActionKind::Print, ActionKind::PrintfNl];
     let plain = rng.chance(1, 3);
-    let n_actions = match rng.below(8) {
-        0 => 1,
-        1..=3 => 2,
-        4..=6 => 3,
-        _ => 4,
+    let n_actions = match rng.below(16) {
+        0 | 1 => 1,
+        2..=6 => 2,
+        7..=11 => 3,
+        12 | 13 => 4,
+        14 => rng.range(5, 8) as usize,
+        _ => {
+            if tier == Tier::Thorough {
+                rng.range(8, 14) as usize
+            } else {
+                rng.range(5, 9) as usize
+            }
+        }
     };
     let mut actions: Vec<ActionKind> =
         (0..n_actions).map(|_| if plain { *rng.pick(&plain_pool) } else { *rng.pick(&framed_pool) }).collect();
+    if !plain && rng.chance(1, 6) {
+        // every kind of file action on one file name (file_pool = 1 below)
+        actions = vec![ActionKind::FPrint, ActionKind::FPrint0, ActionKind::FPrintf];
+        if rng.chance(1, 2) {
+            actions.push(*rng.pick(&framed_pool));
+        }
+        rng.shuffle(&mut actions);
+    }
+    let one_file = actions.iter().filter(|a| matches!(a, ActionKind::FPrint | ActionKind::FPrint0 | ActionKind::FPrintf)).count() >= 3 && rng.chance(1, 2);
     if rng.chance(3, 20) {
         actions.push(ActionKind::Quit);
     }
     let bare = rng.chance(1, 3);
-    let many = tier == Tier::Thorough && rng.chance(1, 10);
+    // many definitions in front of the printers push the tag numbers up (two hex digits, the
+    // separator's own code 0x1e, beyond 0xff)
+    let many = rng.chance(1, if tier == Tier::Thorough { 8 } else { 25 });
     let cfg = GenCfg {
-        matchers: if bare { 0 } else if many { rng.range(8, 40) as usize } else { rng.range(0, 4) as usize },
-        pattern_pool: 8,
+        matchers: if many { *rng.pick(&[7usize, 14, 15, 40, 70, 130]) } else if bare { 0 } else { rng.range(0, 4) as usize },
+        pattern_pool: if many { 400 } else { 8 },
         time_tests: if bare { 0 } else { rng.below(2) as usize },
         fillers: if bare { 0 } else { rng.range(0, 3) as usize },
         actions,
-        file_pool: rng.range(1, 3) as usize,
-        file_base: rng.usize_below(14),
+        file_pool: if one_file { 1 } else { rng.range(1, 3) as usize },
+        file_base: rng.usize_below(24),
         leading_options: rng.chance(1, 6),
         misplaced_option: false,
         allow_or: rng.chance(2, 3),
         allow_list: rng.chance(1, 3),
         allow_not: rng.chance(1, 2),
-        formats_have_path: true,
+        formats_have_path: rng.chance(3, 4),
         rich_formats: rng.chance(1, 3),
         likely_true: *rng.pick(&[4, 4, 3, 3, 2]),
         unsupported: 0,
@@ -1045,7 +1064,7 @@ pub fn check(tier: Tier) -> i32 {
             }
         };
         let doc = json!({
-            "property": ID, "seed": seed, "run_index": index, "class": class, "detail": detail,
+            "property": ID, "profile": if cfg!(debug_assertions) { "debug" } else { "release" }, "seed": seed, "run_index": index, "class": class, "detail": detail,
             "workload": mw.to_json(), "schedule": ms, "context_switches": switches(&ms), "program": program,
         });
         if let Err(e) = coord::write_json(&path, &doc) {
